@@ -9,7 +9,7 @@ class SourceCode(Sequence):
 
     @classmethod
     def from_file(cls, filename):
-        with open(filename) as file:
+        with open(filename, encoding='utf-8') as file:
             return cls(filename, [line.removesuffix('\n') for line in file])
 
     @classmethod
